@@ -337,6 +337,19 @@ func c08(c *ev.Ctx) {
 		add(c08Case{Kind: "text", Script: s})
 		add(c08Case{Kind: "text", Script: s, NoOpt: true})
 	}
+	// every byte prefix of scripts written with every kind of escape, line ending (LF, CR LF,
+	// lone CR), continuation line, quote style, regexp escape and comment
+	for _, full := range []string{
+		"return \"abc\\\r\ndef\" + 'x\\\ny' + \"q\\\"uote\\\\\";\r\n",
+		"a = \"t\\tab\\r\\n\";\r\nb = a ~= /\\/x\\\\/i; // c\r\nreturn [a, b];\r",
+		"if (a ~= /^[a-z]+\\/$/m) {\r\n  return 'it\\'s';\r\n} else { return \"\\\r\"; }",
+		"x = {\"k\\\n\": 1, 'j': [1.5, 07, 70000]}; // tail\\\r\nreturn x[\"k\"] ? \"y\\\r\nz\" : /r\\e/;",
+		"function f(a, b) { local c; c = a .. b; foreach i, e in c { c = \"\\\\\"; } return √a ** -b % 3; } return f(1, 2) >= 3 && !true || 1 != 2;",
+	} {
+		for cut := 0; cut <= len(full); cut++ {
+			add(c08Case{Kind: "text", Script: full[:cut], NoOpt: cut%2 == 0})
+		}
+	}
 	// every kind of syntax node in the positions where the compiler and the parser ask for
 	// a node's text: called like a function, as a key of a hash with several keys, as the
 	// value of a repeated key, after a dot, as a call argument of such a call
